@@ -81,8 +81,8 @@ class C18(PoolCheck):
         key = rng.choice(hot) if hot and rng.random() < 0.5 else rng.choice(self.keys)
         e = self.entries[key]
         m = [op for op in histories.menu(e)]
-        scenario = rng.choice(['built', 'built', 'racing_build', 'racing_build', 'shared_lazy'])
-        if getattr(e.family, 'defused', False) and scenario == 'shared_lazy':
+        scenario = rng.choice(['built', 'built', 'racing_build', 'racing_build', 'shared_lazy', 'shared_resource'])
+        if getattr(e.family, 'defused', False) and scenario in ('shared_lazy', 'shared_resource'):
             scenario = 'built'      # every call builds its own defused resource
         nthreads = rng.choice([2, 2, 3, 4])
         # small colliding pools: with 2 documents every thread pair works on the same or the sibling document
@@ -94,13 +94,25 @@ class C18(PoolCheck):
                 op = dict(rng.choice(m))
                 if scenario == 'shared_lazy':
                     op = dict(rng.choice([o for o in m if o.get('lazy')]))
-                op['doc'] = pool[0] if scenario == 'shared_lazy' else rng.choice(pool)
+                elif scenario == 'shared_resource':
+                    # one fully loaded XMLResource object used by every thread; path= operations build its
+                    # parent map / XPath tree on first use
+                    cand = [o for o in m if not o.get('lazy') and o['api'] in ('iter_errors', 'is_valid', 'decode_lax',
+                                                                              'validate', 'iter_decode')]
+                    op = dict(rng.choice([o for o in cand if o.get('path')] or cand) if rng.random() < 0.7
+                              else rng.choice(cand))
+                op['doc'] = pool[0] if scenario in ('shared_lazy', 'shared_resource') else rng.choice(pool)
                 prog.append(op)
             programs.append(prog)
         epilogue = dict(rng.choice(m))
         epilogue['doc'] = rng.choice(pool)
         policy = dict(rng.choice(POLICIES))
-        return {'entry': key, 'scenario': scenario, 'programs': programs, 'epilogue': epilogue,
+        build_first = [True] * nthreads
+        # (a variation in which some threads USE the schema without calling build() while another thread builds it
+        # was tried and withdrawn: on the unchanged tree such a user breaks the builders themselves - lazy component
+        # builds outside the lock end in XMLSchemaCircularityError - and neither the statement nor the library's API
+        # covers using a build=False schema before its build() has returned; see DESIGN.md 9)
+        return {'entry': key, 'scenario': scenario, 'programs': programs, 'epilogue': epilogue, 'build_first': build_first,
                 'policy': policy, 'sseed': rng.randrange(1 << 30), 'knobs': histories.gen_knobs(rng),
                 'lines': rng.random() < (0.25 if self.tier == 'quick' else 0.5)}
 
@@ -131,21 +143,24 @@ class C18(PoolCheck):
         builders.GlobalMaps.load = counting_load
 
         shared_res = None
-        if scenario == 'shared_lazy':
-            shared_res = xmlschema.XMLResource(e.docs[case['programs'][0][0]['doc']].data, lazy=True)
+        if scenario in ('shared_lazy', 'shared_resource'):
+            shared_res = xmlschema.XMLResource(e.docs[case['programs'][0][0]['doc']].data,
+                                               lazy=scenario == 'shared_lazy')
+        build_first = case.get('build_first') or [True] * len(case['programs'])
 
         results = [[None] * len(p) for p in case['programs']]
 
         def make_body(t, prog):
             def body():
-                if scenario == 'racing_build':
+                if scenario == 'racing_build' and build_first[t]:
                     schema.build()
                 for i, op in enumerate(prog):
                     if shared_res is not None:
                         call = {k: v for k, v in op.items() if k not in ('doc', 'lazy', 'ns')}
                         hooks = {'namespaces': histories.family_ns(e)} if op.get('ns') else {}
                         try:
-                            results[t][i] = ops.call_api(schema, shared_res, dict(call, lazy=1), hooks)
+                            results[t][i] = ops.call_api(schema, shared_res,
+                                                         dict(call, lazy=1 if scenario == 'shared_lazy' else 0), hooks)
                         except Exception as exc:
                             results[t][i] = canon.canon_exc(exc)
                     else:
@@ -172,7 +187,7 @@ class C18(PoolCheck):
         else:
             for t, prog in enumerate(case['programs']):
                 exc = sched.threads[t]['exc']
-                if exc is not None:
+                if exc is not None and not (scenario == 'racing_build' and not build_first[t]):
                     violations.append({'signature': dict(sigbase, clause='thread-died', cls=type(exc).__name__,
                                                          msg=canon.template(str(exc))),
                                        'detail': dict(detail_base, thread=t, exc=canon.mask(repr(exc))[:300])})
@@ -182,6 +197,12 @@ class C18(PoolCheck):
                     rop = {k: v for k, v in op.items() if k not in ('doc', 'abort')}
                     ref = self.ref(case['entry'], op['doc'], rop)
                     if res == ref:
+                        continue
+                    if scenario == 'racing_build' and not build_first[t]:
+                        # this thread did not ask for the build: it may meet a schema that is not built yet or only
+                        # half built, which the library does not (and is not stated to) protect - its own results are
+                        # not judged; the builders' results and the sequential epilogue are, at full strength
+                        counters['used_while_building_not_judged'] = counters.get('used_while_building_not_judged', 0) + 1
                         continue
                     if scenario == 'shared_lazy' and res and res.get('k') == 'raise' and \
                             res['cls'] == 'XMLResourceError' and 'already under iteration' in res.get('msg', ''):
@@ -211,6 +232,14 @@ class C18(PoolCheck):
                     violations.append({'signature': dict(sigbase, clause='epilogue-differs (residue)', api=op['api'],
                                                          diff=diff_class(epi, ref)),
                                        'detail': dict(detail_base, op=op, got=short(epi, 700), ref=short(ref, 700))})
+        if scenario == 'shared_resource' and violations:
+            # the statement is about sharing one SCHEMA object; a fully loaded XMLResource shared between threads is
+            # explored and reported (its lazily built XPath node tree is not thread safe in the dependency), not decided
+            counters['shared_resource_mismatch_reported_not_decided'] = 1
+            for v in violations:
+                k = 'shared_resource_' + v['signature'].get('diff', v['signature']['clause'])
+                counters[k] = counters.get(k, 0) + 1
+            violations = []
         counters['yield_points'] = sched.points
         counters['switches'] = sched.switches
         counters['switches_with_2_threads_active'] = sched.concurrent_switches
